@@ -2,6 +2,51 @@
 
 package mimetype
 
+import (
+	"fmt"
+	"strconv"
+)
+
 func (g *vfGen) runMore16(slice string) bool { return false }
 
-func vfExecMore16(f []string, op string) (string, bool) { return "", false }
+// resext hex lim : calling Extend on a detection result (and on its ancestors) registers nothing:
+// the tree is unchanged and the same input is classified as before
+func vfExecMore16(f []string, op string) (string, bool) {
+	switch f[0] {
+	case "resext":
+		if vfBuiltin == nil {
+			vfBuiltin = vfSnapshot()
+		}
+		vfBuiltin.restore()
+		defer vfBuiltin.restore()
+		data := vfUnhex(f[1])
+		lim64, _ := strconv.ParseUint(f[2], 10, 32)
+		SetLimit(uint32(lim64))
+		before := vfDumpTree()
+		d := Detect(data)
+		c1 := vfChain(d)
+		always := func([]byte, uint32) bool { return true }
+		k := 0
+		for p := d; p != nil; p = p.Parent() {
+			p.Extend(always, fmt.Sprintf("application/x-verif-foreign-%d", k), ".vf")
+			k++
+		}
+		after := vfDumpTree()
+		d2 := Detect(data)
+		c2 := vfChain(d2)
+		return fmt.Sprintf("%s => %s %s %s", op, c1, c2, vfBit(before == after)), true
+	}
+	return "", false
+}
+
+func (g *vfGen) genResExt() {
+	for _, c := range vfCorpus() {
+		if len(c) > 4096 {
+			c = c[:4096]
+		}
+		g.emit(vfOp("resext", c, []uint32{0, 3072}[g.rng.Intn(2)]))
+	}
+	for _, s := range []string{"%PDF-1.7", "plain text", "{\"a\":1}", "<html><body>", "PK\x03\x04", "", "\x00\x01"} {
+		g.emit(vfOp("resext", []byte(s), 0))
+	}
+}
